@@ -34,6 +34,18 @@ What is compared on every run (both views, stoichiometry on/off, node keys kind 
    either the network they were created on (their view is documented as cached) or the current one.
    Analyses must leave the network's content untouched.
 
+6. *IR correspondence* (stream `ir`, last): the executable model `SynKitModel/CrnIR.lean` of `CRNCanonicalizer`'s
+   individualisation-refinement search (theorems `crn_refine_equivariant` ... `C18.ir_full`) is tied to canon.py stage by stage, on
+   the graph the back-end built, node ids interned in `sorted(G.nodes())` order: (a) `_init_part`; (b) `_refine` of it and of two probe
+   partitions, `_sig` on random (node, partition); (c) every leaf of the real search (observed through a subclass whose `_search` /
+   `_label` only record and delegate): same (prefix, permutation) pairs in the same visiting order, and the equality pattern of the
+   label STRINGS equals that of the model's structured labels; (d) `canonical_perm` is the first leaf with the least string label,
+   `sample_permutations` are exactly the least-label leaves, count and orbits equal the model's.  Python orders rendered strings, the
+   model structured labels (the theorems hold for every strict total label order): item-by-item equality of the final order / perms with
+   the model is gated only where the two orders coincide (one Python type per key, no rendering a proper prefix of another, order of
+   renderings = order of values: e.g. coefficients <= 9).  A stage mismatch is re-examined on the network and 8 renamed copies by the
+   gates 0-3 above: if the property itself is violated that input is reported, otherwise the break is reported without input.
+
 A network in which a species label equals a reaction id is classified `species_label_is_edge_id`
 (finding F19: the un-prefixed string ids of the bipartite view collide).
 """
@@ -1131,6 +1143,413 @@ def count_history(ctx, net):
     ctx.count("history_len:%d" % min(len(net["history"]), 8))
 
 
+# ---------------------------------------------------------------- IR correspondence (SynKitModel/CrnIR.lean <-> canon.py)
+IR_MAX_REPORTS = 3
+_probe_cls = None
+
+
+class _TooManyLeaves(Exception):
+    pass
+
+
+def probe_class():
+    """`CRNCanonicalizer` with two of its own methods wrapped so that the leaves of ITS search can be observed
+    (prefix, permutation, label string, in visiting order).  Nothing of the algorithm is re-implemented: both
+    wrappers call the inherited method with the arguments they were given and return what it returned."""
+    global _probe_cls
+    if _probe_cls is None:
+        from synkit.CRN.Topo.canon import CRNCanonicalizer
+
+        class Probe(CRNCanonicalizer):
+            cap = 10 ** 9
+
+            def _search(self, G, part, prefix, *a, **k):
+                self._at = list(prefix)  # the frame entered last is the one that calls _label (a leaf has no children)
+                return super()._search(G, part, prefix, *a, **k)
+
+            def _label(self, G, perm):
+                lab = super()._label(G, perm)
+                self.leaves.append((list(getattr(self, "_at", [])), list(perm), lab))
+                if len(self.leaves) > self.cap:
+                    raise _TooManyLeaves()
+                return lab
+
+        _probe_cls = Probe
+    return _probe_cls
+
+
+def eq_pattern(xs):
+    """The partition of positions induced by equality, as the list of first occurrences."""
+    first = {}
+    return [first.setdefault(x, i) for i, x in enumerate(xs)]
+
+
+def short(x, n=600):
+    s = json.dumps(x, default=str)
+    return s if len(s) <= n else s[:n] + "..."
+
+
+def ir_label_scope(G, cfg):
+    """(comparable, order_safe).  Python renders a label as ONE string (`str` of every value, fields joined by ':', items
+    by '|') and compares strings; the model keeps the label structured.
+    comparable: no selected value contains a separator and each key is written with one Python type (then two label
+    strings are equal exactly when the structured labels are);
+    order_safe: moreover, per arc key, no rendering is a proper prefix of another one and the order of the renderings
+    is the order of the values (numbers: e.g. all coefficients <= 9; "10" < "2" as strings) — then, the node segment
+    being the same for all leaves, the string order of two leaf labels is the structural order."""
+    comparable = order_safe = True
+    items = [(cfg["nk"], [d for _, d in G.nodes(data=True)]), (cfg["ek"], [d for _, _, d in G.edges(data=True)])]
+    for which, (keys, dicts) in enumerate(items):
+        for k in keys:
+            vals = {}
+            for d in dicts:
+                x = d.get(k, "")
+                if isinstance(x, bool) or not isinstance(x, (int, str)):
+                    return False, False
+                vals[(type(x).__name__, x)] = str(x)
+            if len({t for t, _ in vals}) > 1 or len(set(vals.values())) != len(vals):
+                return False, False
+            rs = list(vals.values())
+            if any(":" in r or "|" in r for r in rs):
+                return False, False
+            if which == 1:
+                xs = [x for _, x in vals]
+                if any(a != b and b.startswith(a) for a in rs for b in rs):
+                    order_safe = False
+                if any((x < y) != (str(x) < str(y)) for x in xs for y in xs):
+                    order_safe = False
+    return comparable, order_safe
+
+
+def ir_random_partition(rnd, nodes, refined):
+    """A partition to probe `_sig` / `_refine` on: the unit partition, the refined initial partition with one cell
+    individualised at a random node, or random cells (every cell sorted by id, as the code keeps them)."""
+    kind = rnd.choice(["unit", "indiv", "indiv", "random"])
+    big = [i for i, c in enumerate(refined) if len(c) > 1]
+    if kind == "indiv" and big:
+        i = rnd.choice(big)
+        v = rnd.choice(refined[i])
+        return kind, [list(c) for c in refined[:i]] + [[v], sorted(w for w in refined[i] if w != v)] + [list(c) for c in refined[i + 1:]]
+    if kind != "random" or len(nodes) < 2:
+        return "unit", [list(nodes)]
+    sh = list(nodes)
+    rnd.shuffle(sh)
+    cuts = sorted(rnd.sample(range(1, len(sh)), rnd.randint(1, min(3, len(sh) - 1))))
+    return kind, [sorted(sh[a:b]) for a, b in zip([0] + cuts, cuts + [len(sh)])]
+
+
+def ir_reports(ctx):
+    return sum(1 for v in ctx.violations if isinstance(v.get("detail"), dict) and str(v["detail"].get("stream", "")).startswith("ir"))
+
+
+class _Collect(_Probe):
+    """Ctx stand-in that keeps the violations of a re-evaluation with their inputs."""
+
+    def __init__(self, ctx):
+        super().__init__(ctx)
+        self.found = []
+
+    def violation(self, what, case, detail=None, classes=(), no_input=False):
+        self.found.append({"what": what, "case": case, "detail": detail, "classes": list(classes), "no_input": no_input})
+
+
+def ir_break(ctx, net, cn, tag, stage, detail):
+    """A stage of the real search differs from the model.  If the difference shows up as a violation of the property
+    itself on this network or on renamed copies of it (canonical graph not faithful, SameUpToNames networks with different
+    canonical graphs, automorphism count / mappings / orbits other than the Lean specification says), that input is
+    reported; otherwise the correspondence broke without a failing input."""
+    ctx.count(f"ir:break:{stage}")
+    if ir_reports(ctx) >= IR_MAX_REPORTS:
+        return
+    detail = dict(detail, stream=f"ir:{tag}", stage=stage)
+    base = {k: v for k, v in net.items() if k in ("rxns", "isolated")}
+    try:
+        rnd = ctx.rnd
+        fam = [base, rename_net(base, rnd, keep_labels=True), rename_net(base, rnd, keep_labels=True, ids="explicit")] + [rename_net(base, rnd, ids=rnd.choice(["regen", "explicit"])) for _ in range(6)]
+        probe = _Collect(ctx)
+        evaluate(probe, [(fam, [cn])], "ir-exhibit", shrink=False)
+        for v in probe.found:
+            if not v["no_input"] and F19 not in v["classes"]:
+                ctx.violation(v["what"], v["case"], dict(v["detail"] or {}, stream=f"ir:{tag}", found_by="a stage of the search differs from the model SynKitModel/CrnIR.lean",
+                                                         ir_stage=stage, ir_detail=short(detail, 1500)), classes=v["classes"])
+                return
+    except Exception as e:  # noqa: BLE001 - the exhibit step is best effort
+        detail["exhibit_raises"] = f"{type(e).__name__}: {e}"[:300]
+    ctx.violation(f"correspondence (individualisation-refinement search, stage {stage}): canon.py differs from the model SynKitModel/CrnIR.lean the crn_ir_* theorems are about",
+                  {"kind": "ir", "nets": [base], "config": cn}, detail, no_input=True)
+
+
+def enc_part(p, idx):
+    return [[idx[v] for v in c] for c in p]
+
+
+def enc_sig(sig):
+    attrs, (din, dout), counts, edges = sig
+    return {"attrs": [enc(x) for x in attrs], "in": int(din), "out": int(dout), "counts": [int(c) for c in counts], "edges": [[enc(x) for x in e] for e in edges]}
+
+
+def check_ir(ctx, batch, net, cn, tag):
+    """Stage-by-stage comparison of the real `CRNCanonicalizer` with SynKitModel/CrnIR.lean on one (network, options).
+    The model is run on the graph the implementation built (`cz.G`), node ids interned in `sorted(G.nodes())` order."""
+    from synkit.CRN.Topo.canon import CRNCanonicalizer
+
+    rnd, cfg = ctx.rnd, CFG[cn]
+    cap = 300 if ctx.quick else 1500
+    kw = dict(include_rule=cfg["bip"], include_stoich=cfg["stoich"], node_attr_keys=tuple(cfg["nk"]), edge_attr_keys=tuple(cfg["ek"]))
+    base = {k: v for k, v in net.items() if k in ("rxns", "isolated")}
+    case = {"kind": "ir", "nets": [base], "config": cn}
+    public = True  # an exception of the public API is reported with its input, one of the probed internal methods as a correspondence break
+    try:
+        H = build(base)
+        cz = CRNCanonicalizer(H, **kw)
+        G = cz.G
+        s = cz.summary()
+        public = False
+        try:
+            nodes = sorted(G.nodes())
+        except TypeError:
+            ctx.count("ir:skipped:node_ids_not_sortable")
+            return None
+        idx = {v: i for i, v in enumerate(nodes)}
+        n = len(nodes)
+        comparable, order_safe = ir_label_scope(G, cfg)
+        if not comparable:
+            ctx.count("ir:skipped:label_strings_not_comparable_with_structured_labels")
+            return None
+        genc = enc_graph(G, lambda v: idx[v])
+        initial = cz._init_part(G)
+        refined = cz._refine(G, [list(c) for c in initial])
+        probe = probe_class()(H, **kw)
+        probe.cap, probe.leaves = cap, []
+        try:
+            ps = probe.summary()
+        except _TooManyLeaves:
+            ctx.count("ir:skipped:too_many_leaves")
+            return None
+        leaves = probe.leaves
+        parts = [ir_random_partition(rnd, nodes, refined) for _ in range(2)] if n else []
+        for kind, _ in parts:
+            ctx.count("ir:probe_partition:" + kind)
+        pool = [p for _, p in parts] + [[list(c) for c in initial]]
+        sig_q = []
+        for _ in range(2 if n else 0):
+            p, v = rnd.choice(pool), rnd.choice(nodes)
+            sig_q.append((p, v, cz._sig(G, v, p)))
+        ref_q = [(p, cz._refine(G, [list(c) for c in p])) for _, p in parts]
+        impl = {"perm": [idx[v] for v in s["canonical_perm"]], "perms": [[idx[v] for v in p] for p in s["sample_permutations"]], "count": int(s["automorphism_count"]),
+                "orbits_raw": [sorted(idx[v] for v in o) for o in s["orbits"]], "early": bool(s["early_stop"])}
+        probe_said = {"perm": [idx[v] for v in ps["canonical_perm"]], "perms": [[idx[v] for v in p] for p in ps["sample_permutations"]], "count": int(ps["automorphism_count"])}
+        tree = [[[idx[v] for v in pre], [idx[v] for v in perm]] for pre, perm, _ in leaves]
+        labels = [lab for _, _, lab in leaves]
+        i_init, i_ref = enc_part(initial, idx), enc_part(refined, idx)
+        sig_q = [(enc_part(p, idx), idx[v], enc_sig(sg)) for p, v, sg in sig_q]
+        ref_q = [(enc_part(p, idx), enc_part(out, idx)) for p, out in ref_q]
+    except Exception as e:  # noqa: BLE001 - any exception is an observable of the check
+        ctx.count(f"ir:impl_raises:{type(e).__name__}")
+        err = f"{type(e).__name__}: {e}"[:300]
+        if not public:
+            ir_break(ctx, net, cn, tag, "an internal method (_init_part / _refine / _sig / instrumented _search) raises where summary() does not", {"error": err})
+        elif ir_reports(ctx) < IR_MAX_REPORTS:
+            ctx.violation("canon raised an exception", {"nets": [base], "config": cn}, {"stream": f"ir:{tag}", "error": err},
+                          classes=[F19] if set(net_species(base)) & set(sim_ids(base)) else [])
+        return None
+    n_arcs = G.number_of_edges()
+    ctx.count("ir:graphs")
+    ctx.count(f"ir:graphs:{tag}")
+    ctx.count(f"ir:config:{cn}")
+    ctx.count("ir:leaves", len(leaves))
+    ctx.count("ir:leaves:" + ("1" if len(leaves) <= 1 else "2-6" if len(leaves) <= 6 else ">6"))
+    ctx.count("ir:search_depth:%d" % min(max((len(t[0]) for t in tree), default=0), 4))
+    ctx.count("ir:final_order_gated" if order_safe else "ir:final_order_not_gated(string order of labels differs from structural order)")
+    state = {"broken": False}
+
+    def brk(stage, detail):
+        if not state["broken"]:
+            state["broken"] = True
+            ir_break(ctx, net, cn, tag, stage, detail)
+
+    # (d), implementation side: result of the search against the leaves of the same search
+    if impl["early"]:
+        brk("early_stop without limits", {})
+    if probe_said != {k: impl[k] for k in probe_said}:
+        brk("observer: the instrumented subclass and the plain class return different results", {"plain": short(impl), "instrumented": short(probe_said)})
+    if labels:
+        m = min(labels)
+        first = labels.index(m)
+        least = [t[1] for t, lab in zip(tree, labels) if lab == m]
+        if impl["perm"] != tree[first][1]:
+            brk("canonical_perm is the first leaf with the minimal label", {"canonical_perm": impl["perm"], "first_minimal_leaf": tree[first][1], "n_leaves": len(labels)})
+        elif impl["perms"] != least or impl["count"] != len(least):
+            brk("sample_permutations are exactly the leaves with the minimal label (visiting order)", {"impl": short(impl["perms"]), "least_label_leaves": short(least), "count": impl["count"]})
+    else:
+        brk("the search visits no leaf", {"canonical_perm": impl["perm"]})
+
+    def on_ir(rep):
+        if not rep["wfd"] or not rep["defined"]:
+            ctx.count("ir:model_precondition_fails:" + ("wfd" if not rep["wfd"] else "defined"))
+            return brk("model precondition (view well formed, search defined) fails on a graph the implementation analysed", {"wfd": rep["wfd"], "defined": rep["defined"]})
+        if not rep["attr_ok"]:
+            ctx.count("ir:attr_ok_false")
+        if rep["initial"] != i_init:
+            return brk("_init_part", {"impl": i_init, "model": rep["initial"]})
+        if rep["refined"] != i_ref:
+            return brk("_refine(initial partition)", {"impl": i_ref, "model": rep["refined"]})
+        model_tree = [[l["prefix"], l["order"]] for l in rep["leaves"]]
+        if tree != model_tree:
+            k = next((i for i, (a, b) in enumerate(zip(tree, model_tree)) if a != b), min(len(tree), len(model_tree)))
+            return brk("_search: leaves (prefix, order) in visiting order",
+                       {"n_impl": len(tree), "n_model": len(model_tree), "first_difference_at": k, "impl": short(tree[k:k + 2]), "model": short(model_tree[k:k + 2])})
+        pi = eq_pattern(labels)
+        pm = eq_pattern([json.dumps(l["label"], sort_keys=True) for l in rep["leaves"]])
+        ctx.count("ir:label_classes", len(set(pm)))
+        ctx.count("ir:label_classes:" + ("1" if len(set(pm)) <= 1 else ">1"))
+        if pi != pm:
+            k = next(i for i, (a, b) in enumerate(zip(pi, pm)) if a != b)
+            return brk("_label: which leaves have equal labels",
+                       {"leaf": k, "impl_equal_to_leaf": pi[k], "model_equal_to_leaf": pm[k], "leaves": short([tree[k], tree[pi[k]], tree[pm[k]]]),
+                        "impl_labels": [labels[k][:300], labels[min(pi[k], pm[k])][:300]]})
+        if not rep["attr_ok"]:
+            return None  # outside the hypothesis of the invariance theorems: the stages above are still mirrored
+        # (d), model side: automorphism data (independent of the label order: crn_ir_orbits_anyOrder)
+        if impl["count"] != rep["count"]:
+            return brk("automorphism_count", {"impl": impl["count"], "model": rep["count"]})
+        orb = sorted(impl["orbits_raw"])
+        if not is_partition(impl["orbits_raw"], list(range(n))) or orb != rep["orbits"]:
+            return brk("orbits", {"impl": orb, "model": rep["orbits"]})
+        ctx.count("ir:orbits_raw_same_order:" + str(impl["orbits_raw"] == [sorted(c) for c in rep["orbits_raw"]]))
+        same_nodes = len({json.dumps(l["label"]["nodes"], sort_keys=True) for l in rep["leaves"]}) <= 1
+        if order_safe and same_nodes:
+            if impl["perm"] != rep["order"]:
+                return brk("canonical_perm (string order of the labels = structural order on this graph)", {"impl": impl["perm"], "model": rep["order"]})
+            if impl["perms"] != rep["perms"]:
+                return brk("sample_permutations", {"impl": short(impl["perms"]), "model": short(rep["perms"])})
+            ctx.count("ir:final_order_same_as_model")
+        else:
+            ctx.count("ir:final_order_same_as_model_ungated:" + str(impl["perm"] == rep["order"]))
+
+    sel_ = sel(cfg)
+    batch.add({"cmd": "crn.ir", "graph": genc, "leaves": True, **sel_}, on_ir)
+    for p, v, sg in sig_q:
+        def on_sig(rep, p=p, v=v, sg=sg):
+            ctx.count("ir:node_signatures")
+            if rep != sg:
+                brk("_sig", {"partition": p, "node": v, "impl": short(sg), "model": short(rep)})
+        batch.add({"cmd": "crn.ir_sig", "graph": genc, "partition": p, "node": v, **sel_}, on_sig)
+    for p, out in ref_q:
+        def on_ref(rep, p=p, out=out):
+            ctx.count("ir:refine_of_probe_partition")
+            if rep != out:
+                brk("_refine", {"partition": p, "impl": out, "model": rep})
+        batch.add({"cmd": "crn.ir_refine", "graph": genc, "partition": p, **sel_}, on_ref)
+    return {"graph": genc, "n_nodes": n, "n_arcs": n_arcs}
+
+
+class Batch:
+    """Requests to the Lean driver with the callback that consumes each answer."""
+
+    def __init__(self, ctx):
+        self.ctx, self.reqs, self.cbs = ctx, [], []
+
+    def add(self, req, cb):
+        self.reqs.append(req)
+        self.cbs.append(cb)
+
+    def run(self):
+        reqs, cbs, self.reqs, self.cbs = self.reqs, self.cbs, [], []
+        if reqs:
+            for cb, ans in zip(cbs, self.ctx.lean().ok(reqs, shards=8)):
+                cb(ans)
+
+
+def disjoint_copies(net, k):
+    """k copies of a network over disjoint species names (component permutations: search trees of depth >= 2)."""
+    rxns = []
+    for i in range(k):
+        for q in net["rxns"]:
+            rxns.append({"r": [[f"{s}{i}", c] for s, c in q["r"]], "p": [[f"{s}{i}", c] for s, c in q["p"]], "rule": q.get("rule"), "eid": None})
+    return {"rxns": rxns, "isolated": []}
+
+
+def ir_inputs(ctx):
+    """(tag, network, configurations) of the IR correspondence stream: the populations of the other streams re-used,
+    plus networks with deep search trees and networks whose label strings order differently from the structured labels."""
+    rnd, q = ctx.rnd, ctx.quick
+    XCFG = [c["name"] for c in CONFIGS_X]
+    EVERY = ALL + XCFG
+    for case in load_regress():
+        for net in case["nets"]:
+            yield "regress", net, case.get("configs", ALL)
+    for name, net in symmetric_families():
+        yield "symmetric", net, EVERY
+        yield "symmetric-renamed", rename_net(net, rnd, keep_labels=rnd.random() < 0.3, ids=rnd.choice(["regen", "explicit"])), rnd.sample(EVERY, 3 if q else 7)
+        nm = near_miss(net, rnd)
+        if nm and not q:
+            yield "symmetric-near-miss", nm[0], rnd.sample(EVERY, 3)
+    for net in f19_nets():
+        yield "f19", net, ["bip+stoich", "species+stoich"]
+    # deep trees: several identical components (a cell stays non-trivial after the first individualisation)
+    comps = [{"rxns": [rx([("A", 1)], [("B", 1)])]}, {"rxns": [rx([("A", 1), ("B", 1)], [("C", 1)])]}, {"rxns": [rx([("A", 2)], [("B", 1)]), rx([("B", 1)], [("A", 1)])]},
+             {"rxns": [rx([("A", 1)], [("B", 1), ("C", 1)])]}]
+    for c in comps:
+        for k in (2, 3):
+            yield "components", rename_net(disjoint_copies(c, k), rnd), rnd.sample(EVERY, 3 if q else 7)
+    for _ in range(8 if q else 80):
+        c = random_net(rnd, max_species=3, max_rxns=2)
+        c["isolated"] = []
+        yield "components", rename_net(disjoint_copies(c, rnd.choice([2, 2, 3])), rnd), rnd.sample(EVERY, 2)
+    # multi-digit coefficients: "10" < "2" as strings, 2 < 10 in the model (both minima are canonical forms; final order not gated)
+    L = "ABCDEFGH"
+    for k in ((4, 6) if q else (4, 6, 8)):
+        net = {"rxns": [rx([(L[i], 10 if i % 2 == 0 else 2)], [(L[(i + 1) % k], 1)]) for i in range(k)]}
+        yield "string-vs-number-order", net, ["bip+stoich", "species+stoich", "bip+stoich/keys-permuted"]
+    yield "string-vs-number-order", {"rxns": [rx([("A", 1), ("B", 1)], [("C", 12), ("D", 12)]), rx([("A", 1), ("B", 1)], [("C", 3), ("D", 3)])]}, ["bip+stoich", "species+stoich"]
+    # the refinement never looks at the attributes of in-arcs: C and D stay in one cell, the two leaves carry different labels,
+    # "1:product:10" < "1:product:2" as strings and 2 < 10 in the model (the two searches return different, equally valid, orders)
+    for net in ({"rxns": [rx([("A", 1)], [("C", 10), ("D", 2)])]}, {"rxns": [rx([("A", 1), ("B", 1)], [("C", 10), ("D", 2), ("E", 2)])]},
+                {"rxns": [rx([("A", 1)], [("C", 10), ("D", 2)]), rx([("B", 1)], [("E", 10), ("F", 2)])]}):
+        yield "string-vs-number-order", rename_net(net, rnd) if rnd.random() < 0.5 else net, ["bip+stoich", "species+stoich", "bip+stoich/keys-permuted", "bip-stoich"]
+    # refinement-blind cells: rings of unit reactions of different lengths side by side (every species / reaction node has the same
+    # signature, the refinement cannot separate the components: leaves with several different labels, the least class has |Aut| members)
+    def ring(k, pre):
+        return [rx([(f"{pre}{i}", 1)], [(f"{pre}{(i + 1) % k}", 1)]) for i in range(k)]
+    blind = [{"rxns": ring(4, "a") + ring(3, "b")}, {"rxns": ring(3, "a") + ring(2, "b") + ring(1, "c")}] + ([] if q else [{"rxns": ring(5, "a") + ring(3, "b")}, {"rxns": ring(4, "a") + ring(2, "b") + ring(2, "c")}])
+    for net in blind:
+        yield "refinement-blind", rename_net(net, rnd) if rnd.random() < 0.5 else net, ["species+stoich", "bip+stoich", "species-stoich"]
+    # exhaustive small networks (sampled in the quick tier)
+    ex1 = exhaustive_nets(False)
+    ex2 = exhaustive_nets(True)[len(ex1):]
+    for net in (rnd.sample(ex1, 25) + rnd.sample(ex2, 35)) if q else (ex1 + ex2):
+        yield "exhaustive3", (permute_net(net, rnd.choice(S3), reverse=rnd.random() < 0.5) if rnd.random() < 0.5 else net), rnd.sample(ALL, 2)
+    # random networks
+    for _ in range(120 if q else 1200):
+        net = random_net(rnd)
+        if rnd.random() < 0.5:
+            net = rename_net(net, rnd, ids=rnd.choice(["regen", "explicit"]))
+        yield "random", net, rnd.sample(EVERY, 2)
+
+
+def stream_ir(ctx):
+    """IR correspondence: ties SynKitModel/CrnIR.lean (theorems crn_refine_equivariant ... C18.ir_full) to
+    synkit/CRN/Topo/canon.py, stage by stage."""
+    batch = Batch(ctx)
+    sampled = False
+    for tag, net, cfgs in ir_inputs(ctx):
+        ctx.count("ir:networks")
+        for cn in cfgs:
+            done = check_ir(ctx, batch, net, cn, tag)
+            if done is None:
+                continue
+            ctx.case(["ir", done["graph"], cn], nontrivial=(done["n_nodes"] >= 3 and done["n_arcs"] >= 2),
+                     sample={"stream": "ir", "family": tag, "net": net, "config": cn} if tag == "components" and not sampled else None)
+            sampled = sampled or tag == "components"
+        if len(batch.reqs) >= 1200:
+            batch.run()
+        if ir_reports(ctx) >= IR_MAX_REPORTS:
+            break
+    batch.run()
+
+
+
 # ---------------------------------------------------------------- entry points
 ALL = [c["name"] for c in CONFIGS]
 
@@ -1143,8 +1562,13 @@ def run(ctx):
         "Driver/CrnCanon.lean JSON codec, harness/props/c18.py adapter (string node ids interned: species i -> i, reaction j -> nS+j, both in sorted order; "
         "sets / per-id maps of the species view compared as sets / dicts)",
         "the two id() schedules used for the cache-transparency gate shadow the name `id` inside synkit.CRN.Topo.canon only (its single use is the epoch key of _refine)",
-        "the IR search of CRNCanonicalizer and NetworkX DiGraphMatcher are not modelled: their outputs are gated against the proven specification "
-        "(count, mapping set, orbit partition, faithfulness, kernel agreement) on every generated case",
+        "hand-written model SynKitModel/CrnIR.lean of CRNCanonicalizer's individualisation-refinement search (_init_part, _sig, _refine, _label, _search, _orbits_from_perms; "
+        "max_depth = timeout_sec = None) tied to /repo/synkit/CRN/Topo/canon.py by the IR correspondence stream of this run (stage by stage, not by translation): the model is run on the "
+        "graph the back-end built, node ids interned in sorted(G.nodes()) order; the leaves of the real search are observed through a subclass whose _search / _label wrappers only record "
+        "and delegate; Python compares rendered label STRINGS, the model structured labels (theorems hold for every strict total label order): equality of labels is compared as a pattern, "
+        "equality of the final order only where the two orders provably coincide (single-type values, no rendering a proper prefix of another, e.g. coefficients <= 9)",
+        "NetworkX DiGraphMatcher (CRNAutomorphism) and the WL helper are not modelled: their outputs are gated against the proven specification "
+        "(count, mapping set, orbit partition, faithfulness, kernel agreement) on every generated case, as are the outputs of the IR search",
     ]
     ctx.assumptions = [
         "networks are built through CRNHyperGraph.add_rxn with mapping sides (store consistency is C15); species labels / rules / ids are plain strings",
@@ -1168,8 +1592,13 @@ def run(ctx):
         "edited in place (a reaction removed and re-added under its id with a one-edit variant / random / identical content, edit followed by its inverse, a coefficient or the rule of a "
         "stored reaction set directly, remove_species keeping or pruning the orphan, reactions added / removed, a copy forked off with the edit going to the copy or to the original), "
         "possibly analysed and edited again, possibly with a different network of the same labels and ids analysed in between, and then queried; each history comes with a brand-new "
-        "object of the same final content and ids and with its starting network, under 4 of the 7 configurations (structured ones under all 7).")
-    ctx.nontrivial_rule = "(store content, configuration) distinct as a JSON value; the view has >= 3 nodes and >= 2 arcs"
+        "object of the same final content and ids and with its starting network, under 4 of the 7 configurations (structured ones under all 7). "
+        "IR correspondence stream (last): regression corpus, every symmetric family (all 7 configurations) with a renamed copy, F19 networks, 2..3 disjoint identical components of small "
+        "fixed / random networks (search trees of depth >= 2), rings with coefficients 10 / 2 and a 12-vs-3 network (label strings order differently from structured labels), exhaustive "
+        "3-species networks (sampled in quick), random networks (half of them renamed), each under 2..7 configurations; per graph 2 probe partitions (unit / one cell of the refined "
+        "partition individualised / random cells) for _refine and 2 random (node, partition) for _sig.")
+    ctx.nontrivial_rule = ("(store content, configuration) distinct as a JSON value; the view has >= 3 nodes and >= 2 arcs "
+                           "(IR stream: (graph as built by the back-end with interned ids, configuration) distinct; same size rule)")
     build_and_audit(ctx, ["SynKitProofs.Props.C18"], "SynKitProofs/Audit/C18.lean", THEOREMS)
     rnd = ctx.rnd
 
@@ -1259,10 +1688,30 @@ def run(ctx):
         if len(ctx.violations) < 20:
             evaluate(ctx, b, "random")
     ctx.count("families:random", len(fams))
+    def is_ir(v):
+        return isinstance(v.get("detail"), dict) and str(v["detail"].get("stream", "")).startswith("ir")
+
     real = [v for v in ctx.violations if F19 not in v["classes"]]
     ctx.obligation("correspondence: views, canonical graphs (faithful, kernel agreement), automorphism counts / mappings / orbits impl == proven specification", not real)
+
+    # IR correspondence: the search of CRNCanonicalizer against the model the crn_ir_* theorems are about
+    import time
+    t_ir = time.time()
+    stream_ir(ctx)
+    ctx.extra["ir_stream_wall_s"] = round(time.time() - t_ir, 1)
+    broken = [v for v in ctx.violations if is_ir(v) and F19 not in v["classes"]]
+    ctx.obligation("correspondence (IR search): _init_part, _refine, _sig, leaves of _search (prefix, permutation, equality pattern of the labels), canonical_perm = first least-label leaf, "
+                   "sample_permutations = least-label leaves, automorphism count / orbits of canon.py == SynKitModel/CrnIR.lean (crn.ir, crn.ir_refine, crn.ir_sig)", not broken,
+                   "; ".join(sorted({str(v["detail"].get("stage", v["what"])) for v in broken}))[:600])
 
 
 def replay(ctx, case):
     c = case["case"]
-    evaluate(ctx, [(c["nets"], [c["config"]] if "config" in c else c.get("configs", ALL))], "replay", shrink=False)
+    cfgs = [c["config"]] if "config" in c else c.get("configs", ALL)
+    evaluate(ctx, [(c["nets"], cfgs)], "replay", shrink=False)
+    if c.get("kind") == "ir" or str((case.get("detail") or {}).get("stream", "")).startswith("ir"):
+        batch = Batch(ctx)
+        for net in c["nets"]:
+            for cn in cfgs:
+                check_ir(ctx, batch, net, cn, "replay")
+        batch.run()
